@@ -22,6 +22,9 @@ def enum_cases(tier):
         for vk, v in VOX.items():
             for k in range(nseeds):
                 out.append({"shape": s, "vox": v[: len(s)], "vk": vk, "pseed": 7 * i + k})
+        # scalar voxel-size form of the constructor (isotropic), power-of-two and generic
+        out.append({"shape": s, "vox": [0.5, 0.5, 0.5][: len(s)], "vk": "pow2", "pseed": 7 * i + 5, "scalar_vox": True})
+        out.append({"shape": s, "vox": [0.3, 0.3, 0.3][: len(s)], "vk": "generic", "pseed": 7 * i + 6, "scalar_vox": True})
     return out
 
 
@@ -35,6 +38,7 @@ def gen_cases(tier):
         vk = draw(st.sampled_from(["pow2", "generic"]))
         vox = draw(gens.voxel_sizes(dim, vk))
         return {"shape": shape, "vox": vox, "vk": vk, "pseed": draw(st.integers(0, 2**20)),
+                "scalar_vox": draw(st.sampled_from([False, False, False, True])),
                 "pt": [draw(st.sampled_from([0.0, 1.0, 0.5, 0.25, draw(st.floats(0, 1))]))
                        for _ in range(dim)]}
 
@@ -43,7 +47,12 @@ def gen_cases(tier):
 
 def _setup(case):
     shape, vox = case["shape"], case["vox"]
-    g = darsia.Grid(shape=tuple(shape), voxel_size=list(vox))
+    if case.get("scalar_vox"):
+        # Grid accepts a scalar voxel size (isotropic voxels); the reference uses the expanded list
+        vox = [vox[0]] * len(shape)
+        g = darsia.Grid(shape=tuple(shape), voxel_size=float(vox[0]))
+    else:
+        g = darsia.Grid(shape=tuple(shape), voxel_size=list(vox))
     ref = RefGrid(shape, vox)
     rng = np.random.default_rng(case["pseed"])
     return g, ref, rng
@@ -58,11 +67,12 @@ def _nt(case):
 
 
 def _key(case):
-    return [case["shape"], case["vox"], case["pseed"], case.get("pt")]
+    return [case["shape"], case["vox"], case["pseed"], case.get("pt"), bool(case.get("scalar_vox"))]
 
 
 def _lab(case):
-    return (f"dim{len(case['shape'])}", case["vk"], "thin" if 1 in case["shape"] else "thick")
+    return (f"dim{len(case['shape'])}", case["vk"], "thin" if 1 in case["shape"] else "thick",
+            "voxel-size-scalar" if case.get("scalar_vox") else "voxel-size-list")
 
 
 def _rtol(case):
@@ -238,6 +248,20 @@ def check_cell_to_face(case):
             if not np.allclose(got, want, rtol=1e-13, atol=0):
                 bad = int(np.argwhere(~np.isclose(got, want, rtol=1e-13, atol=0))[0][0])
                 raise Violation("c2f-value", f"{kind}/{mode} face {bad}: {got[bad]!r} vs {want[bad]!r}", t)
+    # integer-typed cell fields (raw image data): same means as their float versions
+    for dt in (np.uint8, np.uint16, np.int64):
+        qi = rng.integers(1, 250, size=shape).astype(dt)
+        for mode in ("arithmetic", "harmonic"):
+            got = darsia.cell_to_face_average(g, qi, mode)
+            want = np.zeros(ref.num_faces)
+            qf = qi.astype(float).ravel("F")
+            for f in range(ref.num_faces):
+                a, b = qf[con[f, 0]], qf[con[f, 1]]
+                want[f] = 0.5 * (a + b) if mode == "arithmetic" else 2.0 / (1.0 / a + 1.0 / b)
+            n += 1
+            if got.shape != want.shape or not np.allclose(got, want, rtol=1e-13, atol=0):
+                raise Violation("c2f-integer-field", f"{np.dtype(dt).name}/{mode}: face average of an integer-typed "
+                                f"cell field differs from the mean of the two neighbours", t)
     try:
         darsia.cell_to_face_average(g, rng.random(shape) + 1, "geometric")
     except ValueError:
